@@ -33,6 +33,15 @@ CHECKS = {
                 note="Same trusted base as C01. The bound (pre_dispatch + n_jobs) * batch size is derived from the "
                      "documented contract; known finding F9b (inline completion during the initial loop) is keyed "
                      "by its cause and reported as KNOWN-FINDING."),
+    "C16": dict(engine="detsched+simpool", cat="exploration", ref="DESIGN.md section 3 (C16)",
+                technique="deterministic simulation: seeded consumer scripts (next/close/drop/foreign-thread drop/"
+                          "overlapping call) against seeded completion schedules, with a stall-all-workers fault for promptness",
+                text="Seeded exploration of consumer behaviours x completion orders x schedules; oracles: prefix / "
+                     "completion order, every value comes from a completed batch, results handed to joblib come out "
+                     "of next() within 1 simulated second while all workers are stalled, abandonment stops dispatch "
+                     "and leaves the object reusable, overlapping calls raise RuntimeError while tasks are incomplete.",
+                note="Same trusted base as C01; availability is stamped at callback start and judged per batch; a "
+                     "generator dropped by a foreign thread counts as over once joblib's helper thread has finished."),
 }
 NOT_APPLICABLE = {
     "C03": "pure function of (object, compressor, protocol, target): no schedule, clock, fault or history for a simulator to own; input enumeration is not this technique (its damaged-file cousin is C14, its stateful reader C13)",
